@@ -116,7 +116,7 @@ def check_doc(acc, headers, hist, pre=(), all_filters=False, mono=True):
 def menu(m, n, seed, cap):
     rows = [(k, X.content_row(m, k, n, seed)) for k in 'dicb']
     rows.append(('g', ('g', A.GCOMM[(n + seed) % len(A.GCOMM)])))
-    rows += X.split_rows(m, cap) + X.join_rows(m) + X.term_rows(m)
+    rows += X.split_rows(m, cap) + X.join_rows(m) + X.mixed_rows(m, cap) + X.term_rows(m)
     return rows
 
 
